@@ -38,11 +38,11 @@ func propSpecs() map[string]*PropSpec {
 		Bounds: map[string]string{"quick": "56 library call groups on 2 symbolic bytes", "thorough": "same"},
 	})
 	var c09long []RunSpec
-	for f := int64(0); f < 14; f++ {
+	for f := int64(0); f < 17; f++ {
 		c09long = append(c09long, rs("H_C09long", f, 20))
 	}
 	var c09long2 []RunSpec
-	for f := int64(0); f < 14; f++ {
+	for f := int64(0); f < 17; f++ {
 		c09long2 = append(c09long2, rs("H_C09long", f, 70))
 	}
 	add(&PropSpec{
@@ -51,7 +51,7 @@ func propSpecs() map[string]*PropSpec {
 		Thorough: append(append([]RunSpec{}, c09long2...), []RunSpec{rs("H_C09", 7, 9), rs("H_C09", 0, 0), rs("H_C09", 1, 0), rs("H_C09", 2, 0), rs("H_C09", 3, 0), rs("H_C09", 4, 0),
 			rs("H_C09", 4, 1), rs("H_C09", 8, 2), rs("H_C09", 7, 3), rs("H_C09", 6, 4), rs("H_C09", 5, 6), rs("H_C09", 9, 8)}...),
 		Covers: []string{"has-token", "two-tokens", "number", "string", "quoted-ident", "error-token", "ident", "float-value-checked", "hex-number", "long-checked", "integer-float-checked"},
-		Bounds: map[string]string{"quick": "all byte strings of length <= 3 (full byte range); focused alphabets: numbers <= 3, strings/escapes <= 6, names/backticks/comments <= 5, operators <= 4, layout and odd bytes <= 4, two-literal alphabet {quote backslash t newline a} <= 8, escapes before multi-byte characters {quote backslash C3 A9 a backtick} <= 6; 14 framed families: 2-3 arbitrary bytes around a run of one repeated character of every length 0..20 (hex of 1..22 digits incl. 16/17 digits and leading zeros, decimals around 2^63 and 2^64, long fractions and exponents, long strings, quoted and plain names, comments); in the numeric families the arbitrary bytes are case-split to concrete digits (64-bit conversion to decimal stalls bit-blasting)",
+		Bounds: map[string]string{"quick": "all byte strings of length <= 3 (full byte range); focused alphabets: numbers <= 3, strings/escapes <= 6, names/backticks/comments <= 5, operators <= 4, layout and odd bytes <= 4, two-literal alphabet {quote backslash t newline a} <= 8, escapes before multi-byte characters {quote backslash C3 A9 a backtick} <= 6; 17 framed families: 2-3 arbitrary bytes around a run of one repeated character of every length 0..20 (hex of 1..22 digits incl. 16/17 digits and leading zeros, decimals around 2^63 and 2^64, long fractions and exponents, long strings, quoted and plain names, comments); in the numeric families the arbitrary bytes are case-split to concrete digits (64-bit conversion to decimal stalls bit-blasting)",
 			"thorough": "all byte strings of length <= 4 (full byte range); numbers <= 4, strings <= 8, names <= 7, operators <= 6, layout <= 5; framed families with runs 0..70; multi-byte escapes <= 7"},
 		Outside: []string{"sources longer than the bound", "BasicLit.Float64/Uint64 of float literals whose value needs more than one rounding step (decimal exponent beyond +-22 or mantissa >= 2^53); the others are decided per concrete spelling (floating point is outside the solver's theories: the spelling is enumerated, the accessor executed concretely)", "string values containing invalid UTF-8 together with an escape (don't-care)"},
 		Stubs:   []string{"unicode.IsSpace -> models.IsSpace (validated against the real table)", "utf8 decode/encode: engine model of the Go specification", "strings.{TrimLeft,ReplaceAll,ContainsAny} -> models", "strconv.{ParseUint,FormatUint} -> models", "fmt.Sprintf: error texts opaque"},
@@ -59,7 +59,7 @@ func propSpecs() map[string]*PropSpec {
 	deep := func(n int64, budget int, fams ...int64) []RunSpec {
 		var r []RunSpec
 		if len(fams) == 0 {
-			for f := int64(0); f < 18; f++ {
+			for f := int64(0); f < 28; f++ {
 				fams = append(fams, f)
 			}
 		}
@@ -68,16 +68,23 @@ func propSpecs() map[string]*PropSpec {
 		}
 		return r
 	}
+	c12long := func(nmax int64) []RunSpec {
+		var r []RunSpec
+		for f := int64(0); f < 17; f++ {
+			r = append(r, RunSpec{Harness: "H_C12long", Args: []int64{f, nmax}, Budget: 20000000})
+		}
+		return r
+	}
 	add(&PropSpec{
 		ID: "C12", Title: "scanning, parsing and compiling are total", OwnsPanic: true,
-		Quick: append(deep(64, 25000000), []RunSpec{rs("H_C12", 1, 0), rs("H_C12", 2, 0), rs("H_C12", 3, 0), rs("H_C12", 4, 7), rs("H_C12", 3, 1),
+		Quick: append(append(append(deep(64, 25000000), deep(160, 60000000, 10, 13, 23, 24, 25, 26, 27)...), c12long(70)...), []RunSpec{rs("H_C12", 1, 0), rs("H_C12", 2, 0), rs("H_C12", 3, 0), rs("H_C12", 4, 7), rs("H_C12", 3, 1),
 			rs("H_C12tok", 1, 2), rs("H_C12tok", 2, 2), rs("H_C12tok", 3, 2), rs("H_C12tok", 4, 2), rs("H_C12tok", 5, 4), rs("H_C12tok", 6, 4),
 			rs("H_C12names", 0), rs("H_C12names", 1), rs("H_C12names", 2), rs("H_C12names", 3), rs("H_C12names", 4), rs("H_C12names", 5), rs("H_C12names", 6), rs("H_C12names", 7)}...),
-		Thorough: append(append(deep(128, 100000000), deep(320, 100000000, 1, 2, 5, 7, 10, 11, 12, 13, 14)...), []RunSpec{rs("H_C12", 1, 0), rs("H_C12", 2, 0), rs("H_C12", 3, 0), rs("H_C12", 5, 5), rs("H_C12", 5, 1), rs("H_C12", 5, 2), rs("H_C12", 5, 3),
+		Thorough: append(append(append(deep(128, 100000000), deep(320, 100000000, 1, 2, 5, 7, 10, 11, 12, 13, 14, 23, 24, 25, 26, 27)...), c12long(300)...), []RunSpec{rs("H_C12", 1, 0), rs("H_C12", 2, 0), rs("H_C12", 3, 0), rs("H_C12", 5, 5), rs("H_C12", 5, 1), rs("H_C12", 5, 2), rs("H_C12", 5, 3),
 			rs("H_C12tok", 1, 0), rs("H_C12tok", 2, 0), rs("H_C12tok", 3, 0), rs("H_C12tok", 4, 2), rs("H_C12tok", 5, 2), rs("H_C12tok", 6, 4), rs("H_C12tok", 7, 4),
 			rs("H_C12names", 0), rs("H_C12names", 1), rs("H_C12names", 2), rs("H_C12names", 3), rs("H_C12names", 4), rs("H_C12names", 5), rs("H_C12names", 6), rs("H_C12names", 7)}...),
-		Covers: []string{"has-token", "parsed", "parse-error", "compiled", "compile-error", "walked", "has-semicolon-token", "kilobytes"},
-		Bounds: map[string]string{"quick": "all byte strings of length <= 3, length <= 4 over the bracket/semicolon alphabet; 8 name-collision shapes with arbitrary tokens in the name slots; all token sequences of length <= 4 over the 55-lexeme vocabulary and <= 6 over the 33-lexeme vocabulary; 5 parameter maps; 18 families of deep/long programs (nested parentheses, calls, in-lists, joins, index and sign chains, long sums, pipelines, let chains, column lists, unbalanced brackets, error-token runs, empty statements) at nesting/repetition 64 (up to 3.5 KB) with two arbitrary tokens inside, each path within 25M interpreted instructions",
+		Covers: []string{"has-token", "parsed", "parse-error", "compiled", "compile-error", "walked", "has-semicolon-token", "kilobytes", "long-bytes"},
+		Bounds: map[string]string{"quick": "all byte strings of length <= 3, length <= 4 over the bracket/semicolon alphabet; 8 name-collision shapes with arbitrary tokens in the name slots; all token sequences of length <= 4 over the 55-lexeme vocabulary and <= 6 over the 33-lexeme vocabulary; 5 parameter maps; 28 families of deep/long/wide programs (nested parentheses, calls, in-lists, joins with and without conditions, index and sign chains, long sums, pipelines, let chains, column lists, unbalanced and unclosed brackets, error-token runs, empty statements, single lists of many arguments / values / conditions) at nesting/repetition 64 (up to 3.5 KB; the wide ones also at 160) with two arbitrary tokens inside, each path within 25M (60M) interpreted instructions; 17 framed byte-level families (long strings, quoted names, comments, numbers, unterminated literals ending in multi-byte or stray continuation bytes) with runs of every length 0..70, alone and as a where operand",
 			"thorough": "all byte strings of length <= 3, <= 5 over focused alphabets; all token sequences <= 3 over the full vocabulary, <= 5 over 55 lexemes, <= 7 over 33 lexemes; deep/long families at 128 (all) and 320 (the linear ones, up to 18 KB), each path within 100M interpreted instructions"},
 		Outside: []string{"inputs beyond the bounds", "the wall-clock clause in general (a complexity claim): decided only for the listed deep/long families, as an instruction bound per path plus a native replay under a 5 s watchdog when the bound is exceeded", "step budget per path 400000 SSA instructions for the short inputs: exhaustion is replayed natively under a 5 s watchdog"},
 		Stubs:   []string{"parser.Scan summarised on token-slot sources from tables derived on this run from the real Scan (one-token locality validated on all lexeme pairs)"},
@@ -112,14 +119,24 @@ func propSpecs() map[string]*PropSpec {
 		Outside: []string{"multi-byte layout between tokens inside token slots (token spans themselves are C09's subject)", "error messages for byte-level garbage (their texts quote symbolic runes and are opaque to the engine)"},
 		Stubs:   []string{tokStub},
 	})
+	c11deep := func(n, wide int64) []RunSpec {
+		var r []RunSpec
+		for _, f := range []int64{0, 1, 2, 3, 4, 5, 8, 9, 10, 13, 15, 16, 17, 21} {
+			r = append(r, RunSpec{Harness: "H_C11deep", Args: []int64{f, n}, Budget: 200000000})
+		}
+		for _, f := range []int64{10, 13, 23, 24, 25, 26, 27} {
+			r = append(r, RunSpec{Harness: "H_C11deep", Args: []int64{f, wide}, Budget: 200000000})
+		}
+		return r
+	}
 	add(&PropSpec{
 		ID: "C11", Title: "tree traversal reaches every node exactly once and never fails", OwnsPanic: true,
-		Quick:    append(tokRuns("H_C11", 5, 0), seeds("H_C11seed", 1)...),
-		Thorough: append(append(tokRuns("H_C11", 6, 0), seeds("H_C11seed", 1)...), seeds("H_C11seed", 2)...),
-		Covers:   []string{"accepted", "walk-checked", "skip-checked"},
-		Bounds: map[string]string{"quick": "all accepted token sequences of length <= 5 over the full vocabulary; 18 seed programs with one arbitrary corruption; the skipped node index is arbitrary",
+		Quick:    append(append(tokRuns("H_C11", 5, 0), seeds("H_C11seed", 1)...), c11deep(48, 100)...),
+		Thorough: append(append(append(tokRuns("H_C11", 6, 0), seeds("H_C11seed", 1)...), seeds("H_C11seed", 2)...), c11deep(128, 300)...),
+		Covers:   []string{"accepted", "walk-checked", "skip-checked", "history-checked", "deep-walk"},
+		Bounds: map[string]string{"quick": "all accepted token sequences of length <= 5 over the full vocabulary; 18 seed programs with one arbitrary corruption; the skipped node index is arbitrary; after every traversal abandoned by a panicking visitor (at the same arbitrary index) the next traversal visits the same nodes; 14 deep program families at nesting 48 and 7 wide ones (lists of 100 arguments / values / conditions / columns / operators) with two arbitrary tokens inside",
 			"thorough": "length <= 6; seeds with one and two corruptions"},
-		Outside: []string{"trees deeper than the bounded programs produce"},
+		Outside: []string{"trees deeper or wider than the listed families produce"},
 		Stubs:   []string{tokStub},
 	})
 	c07 := func(maxK, maxLadder, nCorrupt, nLayout int64) []RunSpec {
